@@ -48,6 +48,8 @@ def run(tier, seed, replay):
     run.add_tlc(v)
     for (line, fl) in v.fails:
         for cl in fl["clauses"]:
+            if cl == "stream_bytes_eq_lookup":
+                continue      # byte identity of the stream and the lookup path is C02's clause (checks/c02.py runs these cases too)
             c = fl["case"]
             rec = {"clause": cl, "src_tc": c["src_tc"], "target": c["target"], "force": c["force"], "fmt": c["fmt"], "case": c}
             if line - 1 < len(case_list):
